@@ -182,6 +182,14 @@ func genC05Files(c *ctx) []*mfile {
 			}
 		}
 	}
+	// PNG carrying a profile (the basic metadata must not depend on it): name lengths 1, 40, 78, 79
+	for _, nl := range []int{1, 40, 78, 79} {
+		name := bytes.Repeat([]byte{'n'}, nl)
+		w, h := dv[rng.Intn(len(dv))], dv[rng.Intn(len(dv))]
+		f := buildPNG(rng, pngOpt{w: w, h: h, depth: 8, ctype: 2, nAnc: 2, icc: genProfile(rng, 200+rng.Intn(300), rng.Intn(2) == 0), iccName: string(name), iccLevel: 6, iccPos: rng.Intn(3), body: 50, smallAnc: true})
+		f.Name = fmt.Sprintf("png-iccp-name%d-%dx%d", nl, w, h)
+		out = append(out, f)
+	}
 	// JPEG
 	dj := dimValues(rng, 16, c.n(50, 300))
 	for j := 0; j < c.n(150, 3000); j++ {
